@@ -41,7 +41,7 @@ ASSUMPTIONS = [
     "well-formed instance = inside what each example's reader / comments / shipped resources define: knapsack profits >= 0 and weights >= 1; misp weights >= 0; "
     "max2sat distinct clauses with weights >= 0 (units and tautologies included); tsptw integer metric-closed distances, wide depot window; "
     "alp aircraft sorted by target time, deadlines monotone per class, separations closed under the triangle inequality; "
-    "sop acyclic transitively-closed precedences with fixed first and last job; psp 0/1 demands, zero diagonal change-over",
+    "sop acyclic transitively-closed precedences with fixed first and last job; psp 0/1 demands, zero diagonal change-over, metric and non-metric change-over matrices (the shipped benchmark files contain both)",
     "binaries are the dev-profile examples built from /repo's working tree (overflow checks on)",
     "a watchdog expiry that repeats once is inconclusive (exit 2), never a violation; sizes are tiny, so larger instances are not covered",
 ]
@@ -233,10 +233,20 @@ def o_srflp(i):
 
 @st.composite
 def s_psp(draw):
-    H, n = draw(ints(2, 7)), draw(ints(1, 3))
+    H, n = draw(ints(2, 8)), draw(ints(1, 4))
     cells = draw(st.lists(st.tuples(ints(0, n - 1), ints(0, H - 1)), unique=True, max_size=H))
-    co = draw(fixed_list(fixed_list(ints(0, 9), n), n))
-    return {"horizon": H, "changeover": [[0 if a == b else co[a][b] for b in range(n)] for a in range(n)],
+    # change-over costs: the shipped benchmark files (resources/psp) do NOT all satisfy the triangle inequality, so neither
+    # do these: kind 0 = anything, kind 1 = two-level costs (cheap chains next to expensive direct change-overs, F13),
+    # kind 2 = closed under the triangle inequality
+    kind = draw(ints(0, 2))
+    co = draw(fixed_list(fixed_list(st.sampled_from([0, 1, 7, 9]) if kind == 1 else ints(0, 9), n), n))
+    co = [[0 if a == b else co[a][b] for b in range(n)] for a in range(n)]
+    if kind == 2:
+        for k in range(n):
+            for a in range(n):
+                for b in range(n):
+                    co[a][b] = min(co[a][b], co[a][k] + co[k][b])
+    return {"horizon": H, "changeover": co,
             "stocking": draw(fixed_list(ints(0, 5), n)), "demands": [[int((a, t) in cells) for t in range(H)] for a in range(n)]}
 
 
